@@ -18,6 +18,14 @@ Scenario (pure JSON):
             directive None = location with an empty directive list; tag = injected fault kind or None
   consumer  {"copy": [yield idx], "hold": [yield idx], "mutate": [{"at", "copy", "kind"}],
              "abandon": yield idx|None, "reeval": bool}
+  gen       informational: {"avoid_known": bool, "expose": [knob]} (which known trigger the generator did not avoid)
+
+Generator parameters: avoid_known (probability, default 0.8), rel_offset_semantics ("dwarf" | "library"),
+abi (force one ABI), fault_bad_escape (also inject truncated escape payloads; off by default, see props assumptions).
+
+Violation classes: state-diff (sig field), position-sequence, wrong-exception-type (sig exc, directive, and
+kind = the expected ill-formed event or expected=no-error), missed-error, copy-aliasing, no-reset.  A sig may
+carry cause=<known deviation> (see diagnose).
 """
 
 import collections
@@ -29,7 +37,9 @@ from . import cfi_ref, core
 FIELDS = ["return_column", "personality", "lsda", "cfa", "registers", "initial_cfa", "initial_registers", "save_stack"]
 MUT_KINDS = ["cur_reg_set", "cur_reg_clear", "cur_cfa", "init_reg_set", "init_cfa", "stack_push", "stack_pop", "stack_entry", "scalars", "all"]
 ABI_WEIGHTS = [("x64-elf", 45), ("arm64-elf", 25), ("mips32-elf", 20), ("x64-pe", 5), ("ia32-pe", 5)]
-# what the library answers where it deviates from the toolchain (only used to *name* the cause of a violation)
+# known finding: the library's default return column for these ABIs (toolchain: 30 / 31).  Only the generator's
+# avoid knob looks at this table (it then pins the column with an explicit .cfi_return_column at the startproc
+# location); the oracle never does.
 LIB_DEFAULT_RA = {"arm64-elf": 32, "mips32-elf": 32}
 KNOWN = ["restore", "rel", "ra", "order"]  # generator knobs, one per known trigger
 
@@ -235,6 +245,20 @@ def _blamed_directive(exc):
     return (name if isinstance(name, str) else None), idx
 
 
+def _selfcheck(scenario, w, groups):
+    """The module that was built must say what the scenario says (guards the
+    builder; a mismatch is a harness error, never a violation)."""
+    passed = [w.blocks[i] for i in scenario["pass"]]
+    desc, hist = cfi_ref.history_from_table(w.module.aux_data["cfiDirectives"].data, passed)
+    back = cfi_ref.group_history(desc, hist)
+
+    def plain(gs, remap):
+        return [([remap(loc[0]), loc[1]], [[e[2], list(e[3]), e[4] if not isinstance(e[4], dict) else "dangling"] for e in evs]) for loc, evs in gs]
+
+    if plain(back, lambda b: scenario["pass"][b]) != plain(groups, lambda b: b):
+        raise core.HarnessError("built module does not match the scenario")
+
+
 class Outcome:
     """Result of driving the evaluator once."""
 
@@ -254,6 +278,7 @@ def drive(scenario, steps, groups, consumer, prop):
 
     out = Outcome()
     w = build(scenario)
+    _selfcheck(scenario, w, groups)
     gen = evaluate_cfi_directives(w.module, [w.blocks[i] for i in scenario["pass"]])
     consumer = consumer or {}
     copy_at = set(consumer.get("copy") or [])
